@@ -296,7 +296,7 @@ func c09ChildPrograms(kind string, quick bool) []c09ChildProg {
 		wrap := func(open, close string, k int) string {
 			return "func f(n) { " + strings.Repeat(open, k) + "f(n + 1)" + strings.Repeat(close, k) + " }; f(0)"
 		}
-		for _, md := range []int{0, 100, 1000, 10000, 100000} {
+		for _, md := range []int{0, 100, 1000, 10000, 100000, 1 << 30} {
 			md := md
 			for _, k := range []int{30, 3000} {
 				k := k
@@ -308,6 +308,13 @@ func c09ChildPrograms(kind string, quick bool) []c09ChildProg {
 			out = append(out, c09ChildProg{fmt.Sprintf("heavy-return-md%d", md), func() string {
 				return "func f(n) { if n < 0 { return 0 } else { return 1 + f(n + 1) } }; f(0)"
 			}, md})
+			for i, body := range []string{"f(n + 1)", "println(f(n + 1))", "a = f(n + 1)", "m = {}; m[1] = f(n + 1)", "for 1 { if true { return f(n + 1) } }", "x = n => f(n + 1); x(n)"} {
+				body := body
+				out = append(out, c09ChildProg{fmt.Sprintf("heavy-plain%d-md%d", i, md), func() string { return "func f(n) { " + body + " }; f(0)" }, md})
+			}
+			out = append(out, c09ChildProg{fmt.Sprintf("heavy-args-md%d", md), func() string { return "func f(a, b, c, d, e, g) { f(a + 1, b, c, d, e, g) }; f(0, 0, 0, 0, 0, 0)" }, md})
+			out = append(out, c09ChildProg{fmt.Sprintf("heavy-variadic-md%d", md), func() string { return "func f(n, ..) { f(n + 1, ..) }; f(0, 1, 2, 3)" }, md})
+			out = append(out, c09ChildProg{fmt.Sprintf("heavy-lambda-md%d", md), func() string { return "f = func(n) { f(n + 1) }; f(0)" }, md})
 			out = append(out, c09ChildProg{fmt.Sprintf("heavy-loops-md%d", md), func() string {
 				return "func f(n) { for 1 { for e = [1] { for kv = {1: 2} { if true { return [f(n + 1)] } } } } }; f(0)"
 			}, md})
